@@ -82,6 +82,13 @@ def plan_jobs(sts, observers, c):
                 v = drv.random_variant(s, r, flips=s["kind"] != "open")
                 add("mesh", v, 0, "ctor", "py")
                 add("mesh", v, r.choice(k_rand), "ctor", "py")
+    # (b2) the faces scipy's ConvexHull gives for the vertices of the convex bodies (what from_ConvexHull passes on):
+    #      arbitrary winding, for box and prism also another triangulation of the quads (then no field law: not the same faces)
+    for b, s in bases.items():
+        if b == "lshape":
+            continue
+        for ki in [0] + k_rand:
+            add("mesh", drv.hull_variant(s, same_faces=b in ("tetra", "octa")), ki, "ctor", "py")
     # (c) all 2^n flip patterns of the smaller bodies
     for b in c["all_flips"]:
         s = bases[b]
